@@ -301,20 +301,26 @@ func init() {
 		Pkgs: []string{"./jrpc2"},
 		Runs: func(tier string) []HRun {
 			var rs []HRun
-			limits := []int{1, 2, 3}
-			budget := 1
-			if tier == "thorough" {
-				limits = []int{1, 2, 3, 4}
-				budget = 2
-			}
 			for plan := 0; plan < 12; plan++ {
-				for _, l := range limits {
-					if l > 2 && plan >= 3 && tier == "quick" {
-						continue
+				type lb struct{ l, budget int }
+				// quick: limit 1..3 for block-only plans, 1..2 otherwise, budget 1
+				cfgs := []lb{{1, 1}, {2, 1}}
+				if plan < 3 {
+					cfgs = append(cfgs, lb{3, 1})
+				}
+				if tier == "thorough" {
+					// measured: limit 3 with budget 1 takes up to 10 min per plan,
+					// limit 3 budget 2 and limit 4 budget 1 exceed 10 min for the
+					// plans with per-transaction items and are not registered
+					cfgs = []lb{{1, 2}, {2, 2}, {3, 1}}
+					if plan < 3 {
+						cfgs = append(cfgs, lb{3, 2}, lb{4, 2})
 					}
-					rs = append(rs, HRun{Pkg: "./jrpc2", Fn: "ZZ_C07_Get", Params: []int{plan, l, 1, budget}, MaxPaths: 100000})
-					if l <= 2 {
-						rs = append(rs, HRun{Pkg: "./jrpc2", Fn: "ZZ_C07_Get", Params: []int{plan, l, 0, budget}, MaxPaths: 100000})
+				}
+				for _, c := range cfgs {
+					rs = append(rs, HRun{Pkg: "./jrpc2", Fn: "ZZ_C07_Get", Params: []int{plan, c.l, 1, c.budget}, MaxPaths: 100000})
+					if c.l <= 2 {
+						rs = append(rs, HRun{Pkg: "./jrpc2", Fn: "ZZ_C07_Get", Params: []int{plan, c.l, 0, c.budget}, MaxPaths: 100000})
 					}
 				}
 			}
@@ -331,7 +337,7 @@ func init() {
 		},
 		Bounds: map[string]string{
 			"quick":    "12 data plans ({none,headers,blocks} x {none,logs,receipts,traces}); limit 1..3 for block-only plans, 1..2 otherwise; start a free value < 2^62; with and without error members / transport errors",
-			"thorough": "limit 1..4, corruption budget 2",
+			"thorough": "limit 1..2 with corruption budget 2 and limit 3 with budget 1 for every plan; limit 3..4 with budget 2 for the block-only plans (limit 3 budget 2 / limit 4 for plans with per-transaction items ran past 10 minutes per instance and are not claimed)",
 		},
 		Outside: []string{"net/http and goccy/go-json themselves (truncated bodies, gzip, non-2xx)", "JSON-RPC id matching (the client never checks ids)"},
 	})
@@ -560,6 +566,30 @@ func init() {
 					}
 				}
 			}
+			// concurrent callers on one range under the engine's scheduler
+			for kind := 0; kind <= 3; kind++ {
+				for _, m := range []int{1, 2} {
+					for fl := 0; fl <= 1; fl++ {
+						rs = append(rs, HRun{Pkg: "./jrpc2", Fn: "ZZ_C08_Conc", Params: []int{kind, m, 1, 2, fl}, MaxPaths: 400000, Label: "concurrent-callers", NoReplay: true})
+					}
+				}
+				if tier == "thorough" {
+					rs = append(rs, HRun{Pkg: "./jrpc2", Fn: "ZZ_C08_Conc", Params: []int{kind, 1, 2, 2, 0}, MaxPaths: 400000, Label: "concurrent-callers", NoReplay: true},
+						HRun{Pkg: "./jrpc2", Fn: "ZZ_C08_Conc", Params: []int{kind, 2, 2, 2, 1}, MaxPaths: 400000, Label: "concurrent-callers", NoReplay: true},
+						HRun{Pkg: "./jrpc2", Fn: "ZZ_C08_Conc", Params: []int{kind, 1, 1, 3, 0}, MaxPaths: 400000, Label: "concurrent-callers", NoReplay: true},
+						HRun{Pkg: "./jrpc2", Fn: "ZZ_C08_Conc", Params: []int{kind, 2, 1, 3, 0}, MaxPaths: 400000, Label: "concurrent-callers", NoReplay: true})
+				}
+			}
+			// two concurrent Latest callers and the poller, scheduled
+			for _, m := range []int{1, 2} {
+				for pf := 0; pf <= 1; pf++ {
+					rs = append(rs, HRun{Pkg: "./jrpc2", Fn: "ZZ_C08_HeadConc", Params: []int{m, 0, pf}, MaxPaths: 400000, Label: "concurrent-head", NoReplay: true})
+				}
+			}
+			if tier == "thorough" {
+				rs = append(rs, HRun{Pkg: "./jrpc2", Fn: "ZZ_C08_HeadConc", Params: []int{1, 1, 0}, MaxPaths: 3000000, Label: "concurrent-head", NoReplay: true},
+					HRun{Pkg: "./jrpc2", Fn: "ZZ_C08_HeadConc", Params: []int{1, 1, 1}, MaxPaths: 3000000, Label: "concurrent-head", NoReplay: true})
+			}
 			rs = append(rs, HRun{Pkg: "./jrpc2", Fn: "ZZ_C08_Prune", Params: []int{7}}, HRun{Pkg: "./jrpc2", Fn: "ZZ_C08_Prune", Params: []int{6}})
 			for _, m := range mrs {
 				for _, n := range ns {
@@ -569,12 +599,14 @@ func init() {
 			return rs
 		},
 		Assumptions: []string{
-			"sequential request sequences only: every order of n requests over two ranges and two callers is enumerated (case-split), node failures are a solver Boolean per node call; truly concurrent mixes (lookup and nreads++ in different critical sections) are NOT explored here - see C18's note",
+			"sequential half (ZZ_C08_Seq): every order of n requests over two ranges and two callers is enumerated (case-split), node failures are a solver Boolean per node call",
+			"concurrent half (ZZ_C08_Conc): 2 (thorough: 3) callers request one range concurrently through the real Client.Get/cache.get under the engine's scheduler (every mutex operation, goroutine start/end and channel operation is a scheduling point; the next thread is an enumerated decision bounded by a preemption budget of 1, thorough 2); four data plans, maxreads 1 and 2, with and without symbolic node failures; each caller must get the uncached data with both logs once, errors only from this run's node failures, and the number of range fetches must be at least ceil(served reads / maxreads); deadlock and goroutine panics are reported",
 			"the chain is unchanging and honest (harness/jrpc2/node.go): one block per range with one transaction carrying two logs that match different callers' filters; eth_getLogs returns the logs matching the caller's filter",
+			"concurrent head (ZZ_C08_HeadConc): two Latest callers with symbolic floors and the poller (a second announcement or an error) run concurrently under the scheduler after one announcement; every received head must be one of the announced pairs or the node's own answer; threads switch only at blocking points in the quick tier (preemption budget 0), one preemption in the thorough tier",
 			"head cache: announcements (update), poller errors and Latest calls in every order of length n with symbolic numbers/hashes/floors; the poller goroutine itself is not scheduled (its calls are the announcements)",
 		},
-		Bounds:  map[string]string{"quick": "4 plans x n in {2,3} requests x maxreads in {0,1,2} x with/without node failures; prune with 7 ranges; head ops n+1 in {3,4}", "thorough": "n up to 5, maxreads up to 3"},
-		Outside: []string{"concurrent schedules of the cache (sequentialised)", "websocket/HTTP poller I/O"},
+		Bounds:  map[string]string{"quick": "4 plans x n in {2,3} requests x maxreads in {0,1,2} x with/without node failures; prune with 7 ranges; head ops n+1 in {3,4}", "thorough": "n up to 5, maxreads up to 3; concurrent: 3 callers with 1 preemption, 2 callers with 2"},
+		Outside: []string{"concurrent mixes over different ranges or with more than 3 callers, more than 2 preemptions", "preemption inside a critical section at a point that is not a synchronisation operation (data races on such accesses are C18's subject)", "websocket/HTTP poller I/O"},
 	})
 }
 
